@@ -310,4 +310,25 @@ def renderBenchRow (r : Stamp × List Dec) : Str := benchLine (fmtStamp r.1 :: r
 def renderBenchmark (cols : List Str) (rows : List (Stamp × List Dec)) : Str :=
   benchLine cols ++ '\n' :: rows.flatMap fun r => renderBenchRow r ++ ['\n']
 
+/-- one step of `normalizeEol`, from the right: a `\r` directly in front of a line end is dropped -/
+def eolStep (c : Char) (acc : Str) : Str :=
+  if c = '\r' ∧ acc.head? = some '\n' then acc else c :: acc
+
+/-- Windows line ends: `\r\n` becomes `\n` (pandas' tokenizer treats `\r\n` as one line end);
+a `foldr`, so that compiled code does not use stack on files of 10⁵ lines -/
+def normalizeEol (t : Str) : Str := t.foldr eolStep []
+
+/-- the same text with Windows line ends -/
+def toCRLF : Str → Str
+  | [] => []
+  | c :: t => if c = '\n' then '\r' :: '\n' :: toCRLF t else c :: toCRLF t
+
+/-- `read_ec_benchmark_dataset` on a file with `\n` or `\r\n` line ends -/
+def readBenchmarkU (text : Str) : Option (List Str × List (Stamp × List Dec)) :=
+  readBenchmark (normalizeEol text)
+
+/-- a line whose fields are separated by `;` and any number of blanks (`pads`) -/
+def padLine (f : Str) (rest : List (Nat × Str)) : Str :=
+  joinSep ';' (f :: rest.map fun p => List.replicate p.1 ' ' ++ p.2)
+
 end VirVerif
